@@ -237,8 +237,8 @@ class WSStream:
                 )
                 await self.app_put({"type": "websocket.connect"})
         elif isinstance(event, (Body, Data)) and not self.handshake.accepted:
+            self.closed = True  # Before sending so the app cannot respond as well
             await self._send_error_response(400)
-            self.closed = True
         elif isinstance(event, (Body, Data)):
             self.connection.receive_data(event.data)
             await self._handle_events()
